@@ -67,3 +67,60 @@ Theorem C11_did_string_total : forall (b58enc : bstr -> bstr) (d : Did.did),
   Did.did_to_string b58enc d = Ret (Did.did_to_string_v b58enc d).
 Proof. exact Did.did_to_string_total. Qed.
 Print Assumptions C11_did_string_total.
+
+(* ------------------------------------------------------------------ *)
+(* From the request BODY (ServerBytes.v): request.Decode (MessageBytes.decode_message), every block
+   read as the accessors read it (TokenView.view_block over the typed decoding of TokenBytes.v),
+   server.Execute (Server.execute) — composed.  Links are numbered by an injective function of
+   the CID bytes (bstr_code).  Still PARTIAL in the sense of this property: Go runtime panics
+   below the modelled layer are observed (child process), not modelled. *)
+From Ucanto Require Import Ipld Cbor Formats MessageFormat Car MessageBytes TokenBytes TokenView ServerBytes.
+
+(* Every body, whatever its bytes, is answered: request.Decode refuses it (400, nothing runs), or
+   Execute returns an error value, or a report — the model does not run out of fuel when the block
+   table is content addressed (acyclic: a rank exists) and the fuel covers the rank of the
+   execute-list entries for the largest proof list of the request.  `view` is how a block is read
+   as a token: TokenView.view_block, or any function equal to it on every block; extb are the blocks
+   the proof resolver can supply beyond those of the request. *)
+Theorem C11_bytes_total :
+  forall (mh_digest : N -> N -> bstr -> option bstr) (hdr_oracle : bstr -> option (list bstr * N))
+         (keys : list N) (valid : N -> bstr -> bstr -> bool) (alg_of : N -> bstr) (fuel : nat) (srv : server)
+         (extb : list (bstr * bstr)) (view : bstr -> token),
+    (forall b, view b = view_block lid keys valid alg_of b) ->
+  forall body : bstr,
+    (forall l p, resolve_proof (s_ctx srv) l = Some p -> d_link p = l) ->
+  forall rank : link -> nat,
+    (forall d, decode_message mh_digest hdr_oracle body = Some d ->
+       forall l t p, U_of extb view (blocks_of d) l = Some t -> In p (t_prf t) -> (rank p < rank l)%nat) ->
+    (forall d, decode_message mh_digest hdr_oracle body = Some d ->
+       forall l, In l (exec_of (d_msg d)) ->
+         (need (prf_bound extb view (blocks_of d)) (rank l) + 1 <= fuel)%nat) ->
+    serve_bytes mh_digest hdr_oracle fuel srv extb view body = SBad \/
+    serve_bytes mh_digest hdr_oracle fuel srv extb view body = SDone ExecErr \/
+    exists rep calls, serve_bytes mh_digest hdr_oracle fuel srv extb view body = SDone (ExecOk rep calls).
+Proof. exact serve_bytes_total. Qed.
+Print Assumptions C11_bytes_total.
+
+(* the 400 class is exactly "request.Decode fails", and nothing runs then *)
+Theorem C11_bytes_bad :
+  forall mh_digest hdr_oracle fuel srv extb view (body : bstr),
+    decode_message mh_digest hdr_oracle body = None <->
+    serve_bytes mh_digest hdr_oracle fuel srv extb view body = SBad.
+Proof. exact serve_bytes_bad. Qed.
+Print Assumptions C11_bytes_bad.
+
+Theorem C11_bytes_bad_no_calls :
+  forall mh_digest hdr_oracle fuel srv extb view (body : bstr),
+    decode_message mh_digest hdr_oracle body = None ->
+    calls_of (serve_bytes mh_digest hdr_oracle fuel srv extb view body) = [].
+Proof. exact serve_bytes_bad_no_calls. Qed.
+Print Assumptions C11_bytes_bad_no_calls.
+
+(* a block of the request that is not a UCAN (the message's own root block, any other shape, any
+   byte string the typed decoder refuses) is the empty token for the server: no capability, no
+   proof, undefined principals — it cannot be authorized and cannot be a usable proof *)
+Theorem C11_bytes_undecodable_block :
+  forall (num : bstr -> link) keys valid alg_of (b : bstr),
+    token_decode_typed b = None -> view_block num keys valid alg_of b = empty_token.
+Proof. exact view_block_undecodable. Qed.
+Print Assumptions C11_bytes_undecodable_block.
